@@ -75,8 +75,17 @@ func (e *c19env) readerWork(b dyn.Buf, limit int, spareOK bool, r *core.Rand, nO
 			for i := range lens {
 				lens[i] = r.Range(0, limit)
 			}
+			rsrc := b
+			if r.Chance(1, 3) {
+				// from a front window of the read-only range, into rows that are
+				// longer than the window
+				rsrc = b.Slice(0, r.Range(0, limit))
+				for i := range lens {
+					lens[i] = rsrc.Length() + r.Range(0, 3)
+				}
+			}
 			ss := e.t.MakeSS(lens)
-			h.Int(e.pair.ReadStriped(b, ss))
+			h.Int(e.pair.ReadStriped(rsrc, ss))
 			for ci := range lens {
 				for i := 0; i < lens[ci]; i++ {
 					h.U64(ss.At(ci).Get(i).Bits())
@@ -202,8 +211,15 @@ func (e *c19env) writerWork(shared dyn.Buf, lo, hi int, r *core.Rand, nOps int, 
 		case 4:
 			if frames > 0 {
 				cv := v.Channel(r.Intn(ch))
-				for k := 0; k < 4; k++ {
-					cv.SetSample(r.Intn(frames), val())
+				if r.Bool() {
+					// the whole channel, as long as the view itself says it is
+					for i, n := 0, cv.Length(); i < n; i++ {
+						cv.SetSample(i, val())
+					}
+				} else {
+					for k := 0; k < 4; k++ {
+						cv.SetSample(r.Intn(frames), val())
+					}
 				}
 			}
 		default:
